@@ -48,8 +48,11 @@ package metrics
 //@        has(mc.metrics.BackendMetrics, k) && mc.metrics.BackendMetrics[k] == old(mc.metrics.BackendMetrics[k]))
 //@      && len(mc.metrics.BackendMetrics) >= old(len(mc.metrics.BackendMetrics))
 
+// (C04 "the metrics endpoints never report an ejected backend as healthy": counting a request must not touch the health
+// mirror of an entry - only UpdateBackendHealth, called inside the critical sections that change the flag, writes it)
 //@ func (*MetricsCollector).RecordBackendRequest
-//@   props C13 C12
+//@   props C13 C12 C04
+//@   ensures counting_leaves_the_health_mirror_alone@C04: forall k string :: {mc.metrics.BackendMetrics[k]} old(has(mc.metrics.BackendMetrics, k)) ==> mc.metrics.BackendMetrics[k].IsHealthy == old(mc.metrics.BackendMetrics[k].IsHealthy)
 //@   requires mcOK(mc) && unlocked(mc.metrics.mutex) && bmCellsOK(mc)
 //@   ensures cells: bmCellsOK(mc)
 // the cap on the number of per-backend entries must not stop counting for backends that already have one
@@ -73,7 +76,8 @@ package metrics
 //@   modifies mapof(mc.metrics.BackendMetrics), BackendMetrics.IsHealthy, BackendMetrics.LastHealthCheck
 
 //@ func (*MetricsCollector).UpdateBackendConnections
-//@   props C13 C12
+//@   props C13 C12 C04
+//@   ensures the_gauge_mirror_leaves_the_health_mirror_alone@C04: forall k string :: {mc.metrics.BackendMetrics[k]} old(has(mc.metrics.BackendMetrics, k)) ==> mc.metrics.BackendMetrics[k].IsHealthy == old(mc.metrics.BackendMetrics[k].IsHealthy)
 //@   requires mcOK(mc) && unlocked(mc.metrics.mutex) && bmCellsOK(mc)
 //@   ensures cells: bmCellsOK(mc)
 //@   ensures gauge: has(mc.metrics.BackendMetrics, backendName) && mc.metrics.BackendMetrics[backendName].ActiveConnections == connections
